@@ -216,6 +216,10 @@ func drawDialectModel(t *rapid.T, idx int) XDialect {
 					continue
 				}
 				name := e.Name + "_" + drawWordName(t, true, "entry")
+				if rapid.IntRange(0, 5).Draw(t, "entry_name_with_small_letters") == 0 {
+					// entry names are taken as they are written (real definitions have ..._1080p, ..._mV)
+					name += rapid.SampledFrom([]string{"_1080p", "_v2", "_mV", "x", "_Hz"}).Draw(t, "small_suffix")
+				}
 				if !entryNames.take(name) {
 					continue
 				}
